@@ -1,6 +1,7 @@
 package main
 
 import (
+	"sort"
 	"go/ast"
 	"go/token"
 	"go/types"
@@ -16,6 +17,7 @@ func propC10(r *Report, tier string) {
 	ruleVisitTypestate(r, "K1-startdoc-visit-enddoc")
 	ruleFacetBuilderSiblings(r, "K12-facet-builder-protocol")
 	ruleVisitorForwardsBoth(r, "K5-visitor-forwards-both")
+	ruleOptionalFieldEqualityKeepsAbsence(r, "K9b-optional-bound-equality", "search")
 	rulePerSegmentFieldsInvalidatedOnSwitch(r, "K5-per-segment-fields-invalidated")
 	ruleLookupMissSkipsOnlyTheItem(r, "K13-lookup-miss-skips-only-the-item", "index/scorch", "search/facet", "search/collector", "search")
 	ruleRegistriesUpdatedTogether(r, "K14-registries-updated-together", "search.(*FacetsBuilder).Add", "FacetsBuilder", []string{"facetNames", "facets", "facetsByField"})
@@ -244,7 +246,7 @@ func ruleVisitTypestate(r *Report, rule string) {
 	okRet := len(last) > 0 && g.DominatesNode(g.condOf(end), last[len(last)-1])
 	r.Ob(rule, fi.Name+"/EndDoc-after-every-visit", end.Pos(), okEnd && okRet, "EndDoc (counts the document as missing when no value was seen) follows all visits of the match and is on the path to the normal return")
 	// both guarded by the same facetsBuilder != nil test
-	r.Ob(rule, fi.Name+"/StartDoc-EndDoc-same-guard", start.Pos(), factsString(g.GuardsOf(start)) == factsString(g.GuardsOf(end)), "StartDoc and EndDoc are executed under the same condition")
+	r.Ob(rule, fi.Name+"/StartDoc-EndDoc-same-guard", start.Pos(), sameGuardModuloErrors(info, g.RawGuardsOf(start), g.RawGuardsOf(end)), "StartDoc and EndDoc are executed under the same condition (error exits in between aside)")
 }
 
 func ruleFacetBuilderSiblings(r *Report, rule string) {
@@ -416,4 +418,31 @@ func isMatchHandlerVar(info *types.Info, id *ast.Ident) bool {
 	}
 	nt := namedOf(v.Type())
 	return nt != nil && nt.Obj().Name() == "DocumentMatchHandler"
+}
+
+
+// sameGuardModuloErrors: both locations execute under the same branch facts once
+// "no error so far" facts (the complement of an early error return) are set aside.
+func sameGuardModuloErrors(info *types.Info, a, b []Fact) bool {
+	strip := func(fs []Fact) []string {
+		var out []string
+		for _, f := range fs {
+			if x, _, isNil := nilTest(info, f.Expr); isNil && f.Tag == nil && isErrorType(info.TypeOf(x)) {
+				continue
+			}
+			out = append(out, f.String())
+		}
+		sort.Strings(out)
+		return out
+	}
+	x, y := strip(a), strip(b)
+	if len(x) != len(y) {
+		return false
+	}
+	for i := range x {
+		if x[i] != y[i] {
+			return false
+		}
+	}
+	return true
 }
